@@ -271,7 +271,7 @@ def run_case(ctx, case):
                 for i in range(n):
                     got = objs[i].point_array
                     want = np.array(op_pts[i])
-                    if np.max(np.abs(got - want)) > 1e-12:
+                    if not (np.max(np.abs(got - want)) <= 1e-12):
                         kind = "deleted-operation-modified" if i in deleted else ("live-operation-not-updated" if i in added else "foreign-operation-modified")
                         ctx.violation(f"backport:{kind}" + (":after-delete" if deleted else ""),
                                       f"history {case['history'][:step+1]}: operation {i} holds {got.tolist()}, expected {want.tolist()}")
